@@ -38,6 +38,7 @@ def run(ck, F):
             rets.append((i, {"rv": {"k": "call", "term": t}, "sp": t.get("sp")}))
     ck.floor("R1", "return sites", len(rets), 1)
     anys = B.calls_to("iter::Iterator::any")
+    contains = [(bb, t) for bb, t in B.calls() if (M.Body.callee_decl(t) or "").endswith(("::contains",)) and "Set" in (M.Body.callee_decl(t) or "") + "Vec" + (M.Body.callee_decl(t) or "")]
     for (rb, s) in rets:
         rv = s["rv"]
         val_roots = set()
@@ -85,6 +86,24 @@ def run(ck, F):
             free_arm = _arm_when_false(B, abb, at)
             if free_arm is not None and B.dominates(free_arm, rb):
                 ok = True
+        if not ok:
+            # the same test through a collected set: `let taken: HashSet<_> = existing.iter().map(|ns| ns.abbreviation..).collect();
+            # if !taken.contains(candidate) { return candidate }`
+            for (cbb, ct) in contains:
+                if len(ct["args"]) != 2:
+                    continue
+                if not _set_of_existing_abbreviations(F, B, ct["args"][0]):
+                    why = "the set searched does not hold the abbreviations of all of `existing`"
+                    continue
+                needle = set()
+                for x in M.trace(B, ct["args"][1], M.IDENTITY_CALLS):
+                    needle.add(getattr(x, "local", None) if x.kind != "call" else ("call", x.bb))
+                if not (needle & val_roots):
+                    why = "the value tested is not the value returned"
+                    continue
+                free_arm = _arm_when_false(B, cbb, ct)
+                if free_arm is not None and B.dominates(free_arm, rb):
+                    ok = True
         if ok:
             ck.ok("R1", "return-tested-unused", s.get("sp", fb["span"]), "the returned abbreviation was tested not to occur in `existing`", fn="make_abbreviated_namespace")
         else:
@@ -195,3 +214,37 @@ def _arm_when_false(B, abb, at):
         else:
             return None
     return None
+
+
+def _set_of_existing_abbreviations(F, B, operand):
+    """the operand is a collection built as `existing.iter().map(|ns| ns.abbreviation ..).collect()` (parameter 2, unfiltered)"""
+    ident = M.IDENTITY_CALLS + ("iter::Iterator::collect", "iter::FromIterator::from_iter", "IntoIterator::into_iter")
+    for o in M.trace(B, operand, ident):
+        if not (o.kind == "call" and (M.Body.callee_decl(o.term) or "").endswith("iter::Iterator::map")):
+            return False
+        mt = o.term
+        src = M.trace(B, mt["args"][0], M.IDENTITY_CALLS + ("[T]>::iter", "IntoIterator::into_iter"))
+        if not (src and all(x.kind == "arg" and x.local == 2 for x in src)):
+            return False
+        clo = [x for x in M.trace(B, mt["args"][1], ()) if x.kind == "aggregate" and x.rv.get("closure")]
+        if not clo:
+            return False
+        cb = F.lib.body(clo[0].rv["closure"])
+        if cb is None or not cb.get("mir"):
+            return False
+        CB = M.Body(cb)
+        good = False
+        for i in sorted(CB.reach):
+            for st in CB.blocks[i]["stmts"]:
+                if st["k"] == "assign" and st["p"]["l"] == 0 and not st["p"].get("proj") and st["rv"]["k"] == "use":
+                    for y in M.trace(CB, st["rv"]["op"], M.IDENTITY_CALLS):
+                        if y.kind == "arg" and y.local == 2 and "abbreviation" in y.fields():
+                            good = True
+            t = CB.term(i)
+            if t.get("k") == "call" and t["dest"]["l"] == 0:
+                for y in M.trace(CB, t["args"][0], M.IDENTITY_CALLS) if t.get("args") else []:
+                    if y.kind == "arg" and y.local == 2 and "abbreviation" in y.fields():
+                        good = True
+        if not good:
+            return False
+    return True
